@@ -16,6 +16,7 @@ EXPLANATION = (
     "itself. The exact sanitising character set is not decided.")
 ASSUMPTIONS = ["std formatting machinery does not panic for Display of String/usize"]
 TRUSTED = ["rustc nightly MIR construction", "shred-facts driver", "shredlint analyses"]
+TECHNIQUE = 'static: panic-construct scan of the fmt call cone, nested full-forward traversal check of write_par_seq (one line per id, name looked up by the id), imported slot / lock-step / id-wiring obligations'
 RULE_TEXT = "one obligation per body of the fmt cone, per traversal level, per imported slot/lock-step obligation"
 
 
